@@ -6,6 +6,7 @@ package vnet
 import (
 	"fmt"
 	"hash/fnv"
+	"strconv"
 )
 
 const bodyAlphabet = "ABCDEFGHIJKLMNOPQRSTUVWXYZabcdefghijklmnopqrstuvwxyz0123456789"
@@ -15,14 +16,14 @@ const bodyAlphabet = "ABCDEFGHIJKLMNOPQRSTUVWXYZabcdefghijklmnopqrstuvwxyz012345
 // start with the header "r|v|n|" and are therefore self-describing.
 func Body(r string, v, n int) []byte {
 	h := fnv.New32a()
-	fmt.Fprintf(h, "%s/%d", r, v)
+	h.Write([]byte(r + "/" + strconv.Itoa(v))) // no fmt here: Body runs inside scheduled threads
 	seed := int(h.Sum32() & 0x7fffffff)
 	step := 1 + seed%7
 	b := make([]byte, n)
 	for i := range b {
 		b[i] = bodyAlphabet[(seed+i*step+i/len(bodyAlphabet))%len(bodyAlphabet)]
 	}
-	hdr := fmt.Sprintf("%s|%d|%d|", r, v, n)
+	hdr := r + "|" + strconv.Itoa(v) + "|" + strconv.Itoa(n) + "|"
 	if n >= len(hdr)+4 {
 		copy(b, hdr)
 	}
